@@ -81,7 +81,7 @@ def run_kani(ws, crate, harnesses, jobs=16, timeout_s=900, extra_flags=(), featu
             data = None
     compile_error = bool(re.search(r"^error(\[E\d+\])?:", log, re.M)) and data is None
     if data:
-        stats = {c["harness_id"]: c.get("cbmc_stats", {}) for c in data.get("cbmc", [])}
+        stats = {c["harness_id"]: (c.get("cbmc_stats") or {}) for c in (data.get("cbmc") or [])}
         for r in data.get("verification_results", {}).get("results", []):
             hid = r["harness_id"]
             checks = r.get("checks", [])
@@ -100,8 +100,8 @@ def run_kani(ws, crate, harnesses, jobs=16, timeout_s=900, extra_flags=(), featu
                 "undetermined": len(undet),
                 "covers": len(covers),
                 "covers_unsat": [c.get("description") for c in unsat_covers],
-                "solver_s": stats.get(hid, {}).get("runtime_decision_procedure_s"),
-                "symex_s": stats.get(hid, {}).get("runtime_symex_s"),
+                "solver_s": (stats.get(hid) or {}).get("runtime_decision_procedure_s"),
+                "symex_s": (stats.get(hid) or {}).get("runtime_symex_s"),
             }
     # harnesses that were requested but have no result (timeout / crash / not found)
     for h in harnesses:
@@ -121,6 +121,8 @@ def run_kani(ws, crate, harnesses, jobs=16, timeout_s=900, extra_flags=(), featu
 def classify(res):
     """-> 'pass' | 'fail' | 'undecided' (+ reason)"""
     st = res.get("status")
+    if st not in ("Success", "SUCCESS", "Successful") and not res.get("n_checks"):
+        return "undecided", "no check results (CBMC timeout / crash): " + str(res.get("reason", st))
     if st == "NoResult":
         return "undecided", res.get("reason", "no result")
     fails = res.get("failed", [])
